@@ -53,10 +53,13 @@ func GetLengthLimitedID(fixedPrefix, suffix string, maxLength int) string {
 	prefixLen := len(fixedPrefix)
 	suffixLen := len(suffix)
 	totalLen := prefixLen + suffixLen
-	if totalLen > maxLength || (totalLen == maxLength && suffix[0:1] == shortenedPrefix) {
-		// Either it's just too long, or it's exactly the right length but it happens to
-		// start with the character that we use to denote a shortened string, which could
-		// result in a clash.  Hash the value and truncate...
+	// Length that a shortened ID will have: the prefix, the marker and as much of the
+	// (43 character) hash as fits.
+	shortenedLen := min(maxLength, prefixLen+1+base64.RawURLEncoding.EncodedLen(sha256.Size))
+	if totalLen > maxLength || (totalLen == shortenedLen && suffix[0:1] == shortenedPrefix) {
+		// Either it's just too long, or it's exactly the length of a shortened ID and it
+		// happens to start with the character that we use to denote a shortened string,
+		// which could result in a clash.  Hash the value and truncate...
 		hasher := sha256.New()
 		_, err := hasher.Write([]byte(suffix))
 		if err != nil {
